@@ -227,26 +227,52 @@ func c41(r *core.Report, p *core.Prog, thorough bool) {
 	if r.Check(len(vs) == 1, "C41.signer", "verifyLFBTicket:verify-call", p.Pos(vf.Pos()), fmt.Sprintf("%d Verify calls", len(vs))) {
 		v := vs[0]
 		recv, _ := core.BaseObject(core.Receiver(v.Common()))
-		gn, _ := core.CallOf(recv)
-		okPool := false
+		okPool := true
 		d := "signer not resolved through a node pool"
-		if gn != nil && core.MethodName(gn.Common()) == "GetNode" && strings.HasSuffix(core.RecvTypeName(gn.Common()), "node.Pool") {
-			pool, path := core.BaseObject(core.Receiver(gn.Common()))
-			mbc, _ := core.CallOf(pool)
-			d = "pool=" + path
-			if mbc != nil {
-				d += " of " + core.MethodName(mbc.Common()) + "()"
-			}
-			_, idp := core.BaseObject(core.CallArgs(gn.Common())[0])
-			okPool = path == ".Sharders" && mbc != nil && core.MethodName(mbc.Common()) == "GetCurrentMagicBlock" && idp == ".SharderID"
-		} else if gn != nil {
-			d = "signer resolved by " + core.CalleeName(gn.Common()) + " (any registered node, not the current magic block's sharders)"
+		// every non-nil value the signer can be — directly, or as a result of the package's
+		// lookup helper (its parameters bound to the call) — is a GetNode on the current
+		// magic block's Sharders pool for the ticket's SharderID
+		nLeaves := 0
+		signerLeaves := []ssa.Value{recv}
+		if c0, _ := core.CallOf(recv); c0 == nil || core.MethodName(c0.Common()) != "GetNode" {
+			signerLeaves = ValueLeaves(recv, 1)
 		}
+		for _, lv := range signerLeaves {
+			if core.IsNilConst(lv) {
+				continue
+			}
+			nLeaves++
+			inner, bind := core.Unbind(lv)
+			gn, _ := core.CallOf(inner)
+			if gn != nil && core.MethodName(gn.Common()) == "GetNode" && strings.HasSuffix(core.RecvTypeName(gn.Common()), "node.Pool") {
+				pool, path := core.BaseObject(core.Receiver(gn.Common()))
+				mbc, _ := core.CallOf(pool)
+				d = "pool=" + path
+				if mbc != nil {
+					d += " of " + core.MethodName(mbc.Common()) + "()"
+				}
+				idv := core.CallArgs(gn.Common())[0]
+				if bind != nil {
+					idv = core.BindValue(idv, bind)
+				}
+				_, idp := core.BaseObject(idv)
+				if !(path == ".Sharders" && mbc != nil && core.MethodName(mbc.Common()) == "GetCurrentMagicBlock" && idp == ".SharderID") {
+					okPool = false
+				}
+			} else {
+				okPool = false
+				if gn != nil {
+					d = "signer resolved by " + core.CalleeName(gn.Common()) + " (any registered node, not the current magic block's sharders)"
+				}
+			}
+		}
+		okPool = okPool && nLeaves > 0
 		r.Check(okPool, "C41.signer", "verifyLFBTicket:signer-is-current-sharder", p.Pos(v.Pos()), d)
 		a := core.CallArgs(v.Common())
 		_, sp := core.BaseObject(a[0])
 		hc, _ := core.CallOf(a[1])
 		r.Check(sp == ".Sign" && hc != nil && core.MethodName(hc.Common()) == "Hash" && core.ParamOf(core.Receiver(hc.Common())) != nil, "C41.signer", "verifyLFBTicket:verify-args", p.Pos(v.Pos()), "Verify(t.Sign, t.Hash())")
+		gn, _ := core.CallOf(recv) // the lookup (GetNode, or the helper wrapping it) whose result is the signer
 		r.Check(gn != nil && core.KnownNil(core.FactsAt(v.Block()), ssa.Value(gn)) == -1, "C41.signer", "verifyLFBTicket:unknown-signer-rejected", p.Pos(v.Pos()), "Verify runs only when the signer was found")
 		// result discipline
 		ev := core.ErrResult(v)
